@@ -104,4 +104,18 @@ mutual
     | .mk a, .mk b => (∀ s, holder rules a s = holder rules b s) ∧ SameL rules a b
 end
 
+/-! ### the linearisation of a patch tree into command paths
+(what `BlockExitFormatter.cmd_paths` produces for a patch whose blocks end with the vendor's exit word:
+the row, the paths of the children below it, then `[row, exit]`; tied to the real `cmd_paths` by C01's
+correspondence on every run) -/
+mutual
+  def treePaths (exit : String) : PTree → List (List String)
+    | .mk items => itemsPaths exit items
+  def itemsPaths (exit : String) : List (String × Option PTree × SortKey) → List (List String)
+    | [] => []
+    | (row, none, _) :: rest => [row] :: itemsPaths exit rest
+    | (row, some t, _) :: rest =>
+      [row] :: ((treePaths exit t).map (row :: ·) ++ [row, exit] :: itemsPaths exit rest)
+end
+
 end Annet.ConvergeNested
